@@ -2,6 +2,8 @@
 committed sequence / specificity / element -> serializer, every stage evaluated from the source."""
 from __future__ import annotations
 
+from sa.core import pool_repo as core_pool_repo, pmap as core_pmap  # noqa: E402
+
 import ast
 import itertools
 
@@ -186,7 +188,7 @@ def _h_job(args):
         pass
 
     chk = C()
-    chk.repo = Repo(root)
+    chk.repo = core_pool_repo(root)
     res = []
     ns = {'p': 'http://p'}
     for text_, want in cases:
@@ -239,8 +241,7 @@ def r16h(chk, rid='R16.h', thorough=False):
         raise AnalysisError(f'only {len(cases)} selectors generated')
     jobs = 12
     ctx = mp.get_context('fork')
-    with ctx.Pool(jobs) as pool:
-        parts = pool.map(_h_job, [(chk.repo.root, cases[i::jobs * 4]) for i in range(jobs * 4)])
+    parts = core_pmap(chk.repo, _h_job, [(chk.repo.root, cases[i::jobs * 4]) for i in range(jobs * 4)], jobs)
     bad = [x for p_ in parts for x in p_]
     chk.extra['generated_selectors'] = len(cases)
     groups = {}
